@@ -61,6 +61,33 @@ def t_pid(_):
     return os.getpid()
 
 
+class CleanupFailed(Exception):
+    pass
+
+
+def t_convert_exit(n):
+    """A task whose cleanup code turns whatever interrupts it (the SystemExit raised by the
+    termination-signal handler included) into an exception of its own."""
+    try:
+        time.sleep(n)
+    except BaseException:
+        raise CleanupFailed('cleanup')
+    return n
+
+
+def t_finally_raises(n):
+    try:
+        time.sleep(n)
+    finally:
+        raise CleanupFailed('finally')
+
+
+def init_reset_usr1(how):
+    """An initializer that touches the disposition of the soft-timeout signal (as Celery's
+    process_initializer does with signals.reset(*WORKER_SIGRESET))."""
+    signal.signal(signal.SIGUSR1, dict(dfl=signal.SIG_DFL, ign=signal.SIG_IGN)[how])
+
+
 def t_lose_wlock_at_term(n):
     """Stand-in for the race "SIGTERM's handler raises SystemExit between the acquire and the with
     block of send_payload()": at SIGTERM this worker keeps the result queue's write lock and then
@@ -213,7 +240,8 @@ def run_one(spec):
         pool = bp.Pool(spec.get('n', 1), timeout=spec.get('hard', 1), threads=True)
         pool.apply_async(t_pid, (0,)).get(timeout=10)
         owner = []
-        r = pool.apply_async(t_sleep, (30,), accept_callback=lambda pid, t: owner.append(pid))
+        fn = dict(sleep=t_sleep, convert=t_convert_exit, finally_raises=t_finally_raises)[spec.get('task', 'sleep')]
+        r = pool.apply_async(fn, (30,), accept_callback=lambda pid, t: owner.append(pid))
         t1 = time.time()
         res['outcome'] = outcome(r, wait=spec.get('hard', 1) + 6)
         res['failed_after_s'] = round(time.time() - t1, 2)
@@ -222,9 +250,20 @@ def run_one(spec):
         res['old_worker_alive'] = alive(owner[0]) if owner else None
         later = pool.apply_async(t_double, (5,))
         res['later'] = outcome(later, wait=10)
+        if res['later'] == ['unresolved']:
+            # where is the later job stuck?  still unread in the task pipe (no worker can take the
+            # task queue's read lock), or taken by the replacement worker (which cannot answer)
+            try:
+                res['task_unread'] = bool(pool._inqueue._reader.poll(0))
+                res['later_accepted'] = bool(later._accepted)
+            except Exception as exc:   # noqa
+                res['task_unread'] = 'error:%s' % type(exc).__name__
         TEARDOWN.append(pool)
     elif kind == 'soft_timeout':
-        pool = bp.Pool(1, soft_timeout=1, timeout=10, threads=True)
+        kw = {}
+        if spec.get('initializer'):
+            kw = dict(initializer=init_reset_usr1, initargs=(spec['initializer'],))
+        pool = bp.Pool(1, soft_timeout=1, timeout=10, threads=True, **kw)
         r = pool.apply_async(t_catch_soft, (8,))
         res['outcome'] = outcome(r, wait=9)
         TEARDOWN.append(pool)
